@@ -84,13 +84,15 @@ type c15In struct {
 }
 
 type c15Op struct {
-	K   string   `json:"k"` // set add rm setb addb setu addu path reset clone rst
+	K   string   `json:"k"` // set add rm setb addb setu addu path reset clone rst own
 	ID  int      `json:"id,omitempty"`
 	V   c15Val   `json:"v,omitempty"`
 	U   uint32   `json:"u,omitempty"`
 	B   int      `json:"b,omitempty"`
 	P   []c15Val `json:"p,omitempty"`
 	Ins []c15In  `json:"ins,omitempty"`
+	Sel []int    `json:"sel,omitempty"` // own: positions of the receiver's current options
+	Vw  int      `json:"vw,omitempty"`  // own: 1 = pass Options() / a sub-slice of it when sel is a contiguous run
 }
 
 type c15Case struct {
@@ -130,6 +132,12 @@ func (o c15Op) coq() string {
 		return fmt.Sprintf("CResetTo [%s] %d", strings.Join(parts, "; "), o.B)
 	case "clone":
 		return "CClone"
+	case "own":
+		parts := make([]string, len(o.Sel))
+		for i, x := range o.Sel {
+			parts[i] = fmt.Sprint(x)
+		}
+		return fmt.Sprintf("CResetOwn [%s] %d %d", strings.Join(parts, "; "), o.B, o.Vw)
 	default:
 		return "CReset"
 	}
@@ -481,6 +489,8 @@ func c15RunOptions(c c15Case) []c15Obs {
 			case "reset":
 				in := toOptions(o.Ins, ar)
 				opts, used, err = opts.ResetOptionsTo(ar.get(o.B), in)
+			case "own":
+				opts, used, err = opts.ResetOptionsTo(ar.get(o.B), c15Own(opts, o.Sel, o.Vw))
 			case "clone":
 				var cl message.Options
 				cl, err = opts.Clone()
@@ -556,6 +566,8 @@ func c15RunMessage(c c15Case) []c15Obs {
 				err = msg.SetPath(string(pathBytes(o.P)))
 			case "reset":
 				msg.ResetOptionsTo(toOptions(o.Ins, ar))
+			case "own":
+				msg.ResetOptionsTo(c15Own(msg.Options(), o.Sel, o.Vw))
 			case "clone":
 				m2 := pool.NewMessage(context.Background())
 				err = msg.Clone(m2)
@@ -602,7 +614,7 @@ func c15Emit(e *Emitter, c c15Case, tag string) {
 		}
 		steps[i] = fmt.Sprintf("St (%s) %d %s %d %d [%s]", o.coq(), ob.err, coqZ(ob.used), ob.vb, ob.lh, strings.Join(gs, "; "))
 		hist = append(hist, "op:"+o.K, fmt.Sprintf("err%d", ob.err))
-		if ob.err != 0 || ob.repeated || (c.Mode == 1 && ob.vb > 256) {
+		if ob.err != 0 || ob.repeated || (c.Mode == 1 && ob.vb > 256) || (o.K == "own" && ob.nOpts > 0) {
 			nontriv = true
 		}
 		if ob.nOpts > maxOpts {
@@ -777,6 +789,8 @@ func c15RandOp(rng *Rng, mode, salt int) c15Op {
 		return c15Op{K: "reset", Ins: ins, B: c15Buf(rng, tot)}
 	case k < 97:
 		return c15Op{K: "clone"}
+	case k < 99:
+		return c15RandOwn(rng, mode)
 	}
 	return c15Op{K: "rst"}
 }
@@ -784,7 +798,7 @@ func c15RandOp(rng *Rng, mode, salt int) c15Op {
 func runC15(a runArgs) error {
 	e := NewEmitter("C15", "Opt.Run")
 	e.ShardSize = 110
-	e.Rule = "A case is an operation sequence applied to a fresh message.Options (mode 0, capacities 0/1/16) or pool.Message (mode 1), observed after every step (return values, list, all getters for the probe numbers with result slices of exact/+1/-1 length, Path/LocationPath/Queries). Distinct = distinct sequence; non-trivial = some step left a repeated option number in the list, or was refused, or grew the pool value buffer beyond 256 bytes."
+	e.Rule = "A case is an operation sequence applied to a fresh message.Options (mode 0, capacities 0/1/16) or pool.Message (mode 1), observed after every step (return values, list, all getters for the probe numbers with result slices of exact/+1/-1 length, Path/LocationPath/Queries). Distinct = distinct sequence; non-trivial = some step left a repeated option number in the list, or was refused, or grew the pool value buffer beyond 256 bytes, or reset the receiver to a non-empty selection of its own options (input aliasing the receiver's value storage)."
 	if a.only != "" {
 		var c c15Case
 		if err := json.Unmarshal([]byte(a.only), &c); err != nil {
@@ -906,7 +920,10 @@ func runC15(a runArgs) error {
 		}
 	}
 
-	// 3. random sequences
+	// 3. ResetOptionsTo with (selections of) the receiver's own options
+	c15OwnFamily(e, rng, thorough)
+
+	// 4. random sequences
 	nRand, maxLen := 150, 20
 	if thorough {
 		nRand, maxLen = 4000, 40
@@ -925,5 +942,6 @@ func runC15(a runArgs) error {
 		}
 		c15Emit(e, c15Case{Mode: mode, Cap: cp, Probes: c15Probes(ops, r), Ops: ops}, "random")
 	}
+
 	return e.Flush(a.out)
 }
